@@ -17,21 +17,18 @@ theorem eff1_sound (S : CSpec) (g g' : CSt) (h : eff1 S g = some g') : CStep S g
       simp only [Option.some.injEq] at h
       subst h
       exact CStep.mEmit g t rest htodo ht
-  · rename_i t f rest htodo
-    split at h
-    · rename_i hc
+  · rename_i ans t f rest htodo
+    by_cases hc : (!askHalting S (if ans then t else f) || (g.inbox.all (fun e => !e.1) && S.isHalt g.x)) = true
+    · rw [if_pos hc] at h
       simp only [Option.some.injEq] at h
       subst h
-      refine CStep.mAskTrue g t f rest htodo ?_
+      refine CStep.mAsk g ans t f rest htodo ?_
       intro hq
       simp only [hq, Bool.not_true, Bool.false_or, Bool.and_eq_true, List.all_eq_true,
         Bool.not_eq_true'] at hc
       exact ⟨fun e he => hc.1 e he, hc.2⟩
-    · cases h
-  · rename_i t f rest htodo
-    simp only [Option.some.injEq] at h
-    subst h
-    exact CStep.mAskFalse g t f rest htodo
+    · rw [if_neg hc] at h
+      cases h
 
 theorem drainN_reach (S : CSpec) (n : Nat) : ∀ (g g' : CSt), CReach S g → drainN S n g = some g' → CReach S g' := by
   induction n with
@@ -136,15 +133,6 @@ theorem act_reach (S : CSpec) (g g' : CSt) (a : Act) (hr : CReach S g) (h : act 
             simp only [hf, Option.map_some, Option.some.injEq] at h
             subst h
             exact CStep.mBegin g msg m' effs hc.1 hc.2 (List.mem_of_find?_eq_some hf)
-      · cases h
-  | effFalse =>
-      refine CReach.step hr ?_
-      simp only [act] at h
-      split at h
-      · rename_i t f rest htodo
-        simp only [Option.some.injEq] at h
-        subst h
-        exact CStep.mAskFalse g t f rest htodo
       · cases h
   | other m =>
       refine CReach.step hr ?_
